@@ -39,9 +39,17 @@ def r_origin(root):
     out = []; inst = 0; obligations = []
     for rel in ("textx/model.py", "textx/scoping/providers.py"):
         t = load(root, rel)
-        for c in calls(t):
+        # private helpers that are called from elsewhere in the module are analysed through their callers (inlined copies):
+        # on their own the pairing of their parameters is the caller's business
+        called = {callee_name(c) for c in calls(t)}
+        todo = []
+        for f0 in [n for n in ast.walk(t) if isinstance(n, ast.FunctionDef)]:
+            if not any(callee_name(c) == "pos_to_linecol" for c in calls(f0, own=True)) and not any(callee_name(c) in called and (callee_name(c) or "").startswith("_") for c in calls(f0, own=True)): continue
+            if f0.name.startswith("_") and not f0.name.startswith("__") and f0.name in called and len([d for d in ast.walk(t) if isinstance(d, ast.FunctionDef) and d.name == f0.name]) == 1: continue
+            try: todo.append(find_i(root, rel, qualname(f0)))
+            except AnalysisError: todo.append(f0)
+        for c in [c for f1 in todo for c in calls(f1, own=True)]:
             if callee_name(c) != "pos_to_linecol": continue
-            if isinstance(getattr(c, "_parent", None), ast.Assign) and False: continue
             fn = enclosing_func(c); inst += 1
             fexpr = c.func
             if isinstance(fexpr, ast.Name) and fn is not None:
